@@ -862,7 +862,7 @@ pub fn run(ctx: &Ctx) {
     ctx.assume("generated cases use the default project settings: plain `reset` / `clock` mean async-low / posedge (Metadata::create_default); the other [build] clock_type / reset_type values are covered structurally by the enumerated sub-check `project-types`");
     ctx.finish(
         "translation_validation",
-        "vdesign designs in the synthesizable dialect (no **, widths <= 64, mul/div at small widths, hierarchy, counters, case decoding, small arrays) and memory-shaped modules (1-3 write sites: plain / unconditional / masked RMW / sub-word lanes / if-else / case arm; 1-3 reads: assign / registered / re-assigned index / sub-word / computed address; flat or in 1-2 child instances) x stimulus x clock/reset type x 4 libraries x RamConfig drawn around the array size and port counts; non-trivial = netlist has FFs and > 20 cells, or a RAM block, and some known output bit was compared and some output changed; distinct by text + options + stimulus",
+        "vdesign designs in the synthesizable dialect (no **, widths <= 64, mul/div at small widths, hierarchy, counters, case decoding, small arrays) and memory-shaped modules (1-3 write sites: plain / unconditional / masked RMW / sub-word lanes / if-else / case arm; 1-3 reads: assign / registered / re-assigned index / sub-word / computed address; flat or in 1-2 child instances) and hand-templated shapes (nested mux trees over shared selects and data legs in ternary / if-else / case form with all select combinations applied; shifts by a wide non-constant amount with over-range corners; adders / comparators at widths 1, 2, 31..33, 63..65 with carry corners; counters with non-zero reset value, enable, load, wrap) x stimulus x clock/reset type x 4 libraries x RamConfig drawn around the array size and port counts; non-trivial = netlist has FFs and > 20 cells, or a RAM block, and some known output bit was compared and some output changed; distinct by text + options + stimulus",
     );
 }
 
